@@ -9,8 +9,8 @@ import vlib
 
 KINDS = {
     "C04": {"not_idle", "unaccounted", "waiters_not_zero_at_idle", "stream_unattended"},
-    "C01": {"commit_unacked", "frontier"},
-    "C02": {"dup_commit", "order", "offset_order", "commit_of_dropped", "unaccounted", "dropped_and_committed",
+    "C01": {"commit_unacked", "frontier", "commit_in_foreign_stream"},
+    "C02": {"commit_in_foreign_stream", "dup_commit", "order", "offset_order", "commit_of_dropped", "unaccounted", "dropped_and_committed",
             "drop_of_finished", "not_idle"},
     "C05": {"over_capacity", "double_owner", "inuse_over_capacity", "inuse_negative", "inuse_not_zero_at_idle",
             "waiters_not_zero_at_idle", "leaked", "inuse_stuck_after_quiet_period"},
